@@ -115,6 +115,30 @@ Proof.
 Qed.
 Print Assumptions C03_moveaxis_upto_dim5_partial.
 
+(* moveaxis with ONE source and ONE destination axis (the form moveaxis(a, s, d), negative
+   spellings included), sources of EVERY dimension and any extents: the axis order the library
+   builds is NumPy's, it is a permutation, shape and element are NumPy's and the index stays inside
+   the source.  Direct proof (no sweep): the library shifts s into  rest ++ [0]  at position d. *)
+Theorem C03_moveaxis_single_axis : forall (a b : Z) s i,
+  np_moveaxis_ok (length s) (AxOne a) (AxOne b) = true ->
+  let order := np_moveaxis_order (length s) (AxOne a) (AxOne b) in
+  moveaxis_to_transpose (zlen s) (AxOne a) (AxOne b) = Some order /\ is_permb (length s) order = true
+  /\ (inb i (np_transpose_shape s (Some order)) ->
+       moveaxis_accept (AxOne a) (AxOne b) s = Some (np_transpose_shape s (Some order))
+       /\ moveaxis_index (AxOne a) (AxOne b) s i = np_transpose_index (Some order) i
+       /\ inb (moveaxis_index (AxOne a) (AxOne b) s i) s).
+Proof.
+  intros a b s i Hok order. destruct (moveaxis_single (length s) a b Hok) as [E P].
+  split; [exact E|]. split; [exact P|]. intros Hi. exact (moveaxis_np_of_order (AxOne a) (AxOne b) s i E P Hi).
+Qed.
+Print Assumptions C03_moveaxis_single_axis.
+
+(* the hypothesis is satisfiable beyond the swept dimensions: a 7-d source, axis -6 moved to 5 *)
+Example C03_moveaxis_single_axis_nonvacuous :
+  np_moveaxis_ok 7 (AxOne (-6)) (AxOne 5) = true
+  /\ np_moveaxis_order 7 (AxOne (-6)) (AxOne 5) = [0; 2; 3; 4; 5; 1; 6].
+Proof. vm_compute. split; reflexivity. Qed.
+
 (* expand_dims (one axis or a list, negative allowed, no repetition): NumPy's shape; the view is
    the reshape to it, so C03_reshape_C_order gives the elements (ravel order unchanged) *)
 Theorem C03_expand_dims : forall ax s, pos s -> prod s < 2 ^ 64 -> np_expand_dims_ok (length s) ax = true ->
